@@ -175,12 +175,13 @@ def element_totals(sysd, c):
 
 
 def elemental_bounds(sysd, c):
-    """Upper bound of each concentration = min over its constituent elements of supply / atoms per molecule."""
+    """Upper bound of each concentration = min over its constituent elements of supply / atoms per molecule
+    (inf for a species without elements)."""
     tot = element_totals(sysd, c)
     out = []
     for comp in comps(sysd):
         cand = [tot[z] / m for z, m in comp.items() if z != 0]
-        out.append(min(cand))
+        out.append(min(cand) if cand else math.inf)    # no element (charge-only species such as e-): nothing bounds it
     return out
 
 
@@ -735,6 +736,12 @@ TRIPLES = [
     ("CH3", {6: 1, 1: 3}, None, None, "C2H6", {6: 2, 1: 6}),
     ("OH", {8: 1, 1: 1}, None, None, "H2O2", {8: 2, 1: 2}),
     ("Cl", {17: 1}, None, None, "Cl2", {17: 2}),
+    # a species whose composition is its charge alone (no element bounds it: upper_conc_bounds gives inf), written
+    # first or second, so that it is the scarcer partner in about half of the unequal-amount cases (seeded/C06_7)
+    ("e-", {0: -1}, "H+", {1: 1, 0: 1}, "H", {1: 1}),
+    ("Ag+", {47: 1, 0: 1}, "e-", {0: -1}, "Ag", {47: 1}),
+    ("e-(aq)", {0: -1}, "OH", {8: 1, 1: 1}, "OH-", {8: 1, 1: 1, 0: -1}),
+    ("Fe+3", {26: 1, 0: 3}, "e-(aq)", {0: -1}, "Fe+2", {26: 1, 0: 2}),
 ]
 
 
